@@ -431,7 +431,10 @@ func runC05(r *core.Run) {
 	}
 	st := &c05Stats{}
 	w := r.Serial()
+	defer runtime.GOMAXPROCS(runtime.GOMAXPROCS(0))
 	for i := 0; i < rounds; i++ {
+		// vary the parallelism: few Ps force preemption inside handlers, many Ps give true simultaneity
+		runtime.GOMAXPROCS([]int{runtime.NumCPU(), 4, 2, runtime.NumCPU(), 8}[i%5])
 		c := &c05Round{Round: i, Goroutines: gor, PerG: per}
 		w.Begin("concurrent-round", c)
 		if !runC05Round(w, c, st, 0) {
